@@ -23,13 +23,14 @@ LEVEL_NOTE = "Trusts numpy datetime64 arithmetic for decoding results and icontr
 RULE = ("case = chunk of (start, stop, dt, reference, direction) combinations; thorough adds the exhaustive lattice start,stop in 0..40 s, dt in 1..7 s, "
         "reference in {none, start-5, start+3}; every combination is stepped Nsteps+2 times and probed at steps -5..Nsteps+5. Non-trivial: Nsteps >= 1; "
         "distinct by (duration, dt, direction, reference offset).")
-MANDATORY = ["warm_start_clock_checked", "zero_period_spellings", "reference_time_decades_before_the_run", "output_period_not_a_whole_number_of_steps", "output_file_time_values_checked", "forward", "reversed", "dt_not_dividing", "explicit_reference", "negative_steps_probed", "invariant_evaluations",
+MANDATORY = ["reference_time_1970-01-01", "requested_reference_time_compared_with_the_file", "warm_start_clock_checked", "zero_period_spellings", "reference_time_decades_before_the_run", "output_period_not_a_whole_number_of_steps", "output_file_time_values_checked", "forward", "reversed", "dt_not_dividing", "explicit_reference", "negative_steps_probed", "invariant_evaluations",
              "period_spellings_compared", "malformed_rejected", "resets_checked", "positioned_clock_updates"]
 ASSUMPTIONS = ["step2nctime is exercised with the documented units s, m, h only",
                "negative periods and a trailing newline are accepted by normalize_period and are not called malformed by the property"]
 EXHAUSTIVE = {"quick": False, "thorough": False}
 TIMEOUT = {"quick": 600, "thorough": 3000}
 EPOCH = np.datetime64("2000-01-01T00:00:00", "s")
+UNIX0 = int((np.datetime64("1970-01-01T00:00:00", "s") - EPOCH) / np.timedelta64(1, "s"))
 
 MALFORMED = ["", "PT", "1H", "PT1S1H", "PT1.5H", "P1D", "3600", 3600.0, None, [1, "x"], [1.5, "h"], [1, "h", 2], "PT-1H", "T1H", "PT1H ", {"h": 1}]
 
@@ -124,6 +125,8 @@ def _check_combo0(tk, S: int, E: int, d: int, R: int | None, dtspell: Any, V: li
         sit["dt_not_dividing"] = sit.get("dt_not_dividing", 0) + 1
     if R is not None:
         sit["explicit_reference"] = sit.get("explicit_reference", 0) + 1
+    if R == UNIX0:
+        sit["reference_time_1970-01-01"] = sit.get("reference_time_1970-01-01", 0) + 1
     if ns >= 1:
         keys.add((abs(E - S), d, rev, None if R is None else R - S))
 
@@ -332,6 +335,19 @@ def _outfile(case, wd, V, sit, cnt, keys):
             sit["warm_start_clock_checked"] = 1
             if [t for t in got2 if t != stop_t] != [t for t in want2 if t != stop_t]:
                 V.append(C.viol(f"run warm-started at {t_re}: its records carry the times {[str(t) for t in got2][:6]}, the uninterrupted run goes on with {[str(t) for t in want2][:6]}", **desc))
+    if ref is not None:
+        # a reference time given by the user is the one the file's time axis counts from, the values being the offsets from it
+        for f in read_outputs(res.outputs):
+            uref = np.datetime64(f.time_units.split("since")[1].strip(), "s")
+            sit["requested_reference_time_compared_with_the_file"] = sit.get("requested_reference_time_compared_with_the_file", 0) + 1
+            if uref != np.datetime64(ref, "s") or not f.time_units.startswith("seconds since"):
+                V.append(C.viol(f"{f.path.name}: time units {f.time_units!r}, the configured reference time is {ref}", **desc))
+                break
+            vals = [float(r.timeval) for r in f.records]
+            want_v = [float((np.datetime64(r.time, "s") - np.datetime64(ref, "s")) / np.timedelta64(1, "s")) for r in f.records]
+            if vals != want_v:
+                V.append(C.viol(f"{f.path.name}: time values {vals[:5]} are not the offsets {want_v[:5]} from the configured reference time {ref}", **desc))
+                break
     if [str(t) for t in times] != [str(t) for t in written]:
         V.append(C.viol(f"time coordinate of the output file reads {[str(t) for t in times][:6]}, the records were written at model times {[str(t) for t in written][:6]}", **desc))
     keys.add(("outfile", dt, ns, str(spell), rev, ref))
@@ -372,6 +388,8 @@ def run_case(case: dict[str, Any], wd: Path) -> dict[str, Any]:
             if E == S:
                 E = S + d
             R = None if rng.random() < 0.4 else S + int(rng.integers(-10**6, 10**6))
+            if rng.random() < 0.1:
+                R = UNIX0 + int(rng.choice([0, 0, 1, -1]))  # reference times at (and next to) 1970-01-01T00:00:00, where a time value of 0 is a time like any other
             _check_combo(tk, S, E, d, R, _spell(d, rng), V, sit, cnt, keys)
             if len(V) > 5:
                 break
